@@ -73,6 +73,11 @@ func main() {
 		}
 	}
 	tree := []string{"/vb/probe_target", "tree", "3", token}
+	if point == "fileop" {
+		// killed during a file operation on what a previous program left behind, in a container of a given configuration (fileops.go)
+		fileOpPoint(token, scratch, os.Args[4])
+		forever()
+	}
 	if point == "ptrace_noseccomp_running" {
 		// a traced run without a filter (the child asks to be traced right before exec): its descendants are tracees as well
 		go func() { time.Sleep(300 * time.Millisecond); announce(map[string]any{"point": point}) }()
